@@ -135,12 +135,13 @@ def oracle : List Sexp → Sexp
          | some pv => if kindClass pv.kind == kindClass ty then app "ok" [] else app "violation" [.atom "value-kind-outside-static-kind", pv.kind.enc, ty.enc]
          | none => app "err" [.atom "decode"])
       | .list [.atom "panic"] => app "violation" [.atom "accepted-then-panic"]
-      | .list [.atom "err", .atom _] =>
-        -- the exact evaluator knows the cause the Rust drops
-        (match pe.eval with
-         | .error err => if err.dataDependent then app "violation" [.atom "data-failure-reported-as-type-error", .atom err.name]
-                         else app "violation" [.atom "accepted-then-type-error", .atom err.name]
-         | .ok _ => app "violation" [.atom "accepted-then-type-error", .atom "model-disagrees"])
+      | .list [.atom "err", .atom v] =>
+        -- accepted: only the data variants may remain (division by zero / overflow are `Other` since /repo ab600c7)
+        if typeClass.contains v then
+          (match pe.eval with
+           | .error err => app "violation" [.atom "accepted-then-type-error", .atom v, .atom err.name]
+           | .ok _ => app "violation" [.atom "accepted-then-type-error", .atom v, .atom "model-disagrees"])
+        else app "ok" []
       | _ => app "err" [.atom "decode"]
     | _, _ => app "err" [.atom "decode"]
   | _ => app "err" [.atom "bad-request"]
